@@ -1,3 +1,70 @@
-Require Import Base Opcode Tables Ops Tree Opt Flat Run.
-Example placeholder_C02 : True. Proof. exact I. Qed.
-Print Assumptions placeholder_C02.
+(* C02 — Every optimisation combination preserves the meaning of the expression.
+   Statements; proofs in Proofs/OptSound.v. PARTIAL: the first sentence (agreement of values) is proved in full;
+   "all configurations return it when every reachable operand succeeds" and "with Reordering off the unoptimised
+   value is returned" are checked by the correspondence (all 16 subsets x directives on every run), not proved. *)
+Require Import Base Opcode Tables Ops Tree Opt Flat Run EvalDefs EvalTop OptSound Reorder.
+From Coq Require Import Permutation.
+Open Scope Z_scope.
+
+(* every pass, hence every one of the 16 subsets under every cost map and stateless declaration, preserves the
+   order-insensitive denotation `den` (and/or decided by any deciding operand; a failing operand = undefined) *)
+Theorem C02_den_optimize : forall fetch custom cfg t, den fetch custom (optimize custom cfg t) = den fetch custom t.
+Proof. exact den_optimize. Qed.
+(* reordering: for ANY sorting function returning a permutation (covers NaN / infinite / negative costs) *)
+Theorem C02_den_reorder_any_sorter : forall fetch custom sorter, (forall l, Permutation (sorter l) l) ->
+  forall t, den fetch custom (reorder_with sorter t) = den fetch custom t.
+Proof. exact den_reorder. Qed.
+
+(* left-to-right short-circuit evaluation refines the denotation on the property's domain (operands of and/or are
+   boolean-valued or undefined), and that domain is preserved by every pass *)
+Theorem C02_sem_refines_den : forall fetch custom t, wt fetch custom t ->
+  forall v, snd (sem fetch custom t) = Ok v -> den fetch custom t = Some v.
+Proof. exact sem_refines_den. Qed.
+Theorem C02_domain_preserved : forall fetch custom cfg t, wt fetch custom t -> wt fetch custom (optimize custom cfg t).
+Proof. exact wt_optimize. Qed.
+
+(* whenever two configurations both return a value for the same binding, it is the same value
+   (through C01's theorem, `sem` of the optimised tree is what the compiled program returns) *)
+Theorem C02_configurations_agree : forall fetch custom cfgA cfgB t a b, wt fetch custom t ->
+  snd (sem fetch custom (optimize custom cfgA t)) = Ok a ->
+  snd (sem fetch custom (optimize custom cfgB t)) = Ok b -> a = b.
+Proof. exact configurations_agree. Qed.
+Theorem C02_compiled_agree : forall fetch custom cfgA cfgB t a b, wt fetch custom t ->
+  snd (eval fetch custom (compile (optimize custom cfgA t))) = MVal a ->
+  snd (eval fetch custom (compile (optimize custom cfgB t))) = MVal b -> a = b.
+Proof.
+  intros fetch custom cfgA cfgB t a b W HA HB. rewrite run_compile_correct in HA, HB. unfold sem_obs in *. cbn [snd] in *.
+  destruct (snd (sem fetch custom (optimize custom cfgA t))) eqn:EA; [|discriminate].
+  destruct (snd (sem fetch custom (optimize custom cfgB t))) eqn:EB; [|discriminate].
+  inversion HA; inversion HB; subst. eapply configurations_agree; eauto.
+Qed.
+
+(* non-vacuity: the guard pattern under all passes; a reordering that moves a failing operand behind a deciding one *)
+Definition fz (n : str) (k : Z) : res value := if str_eqb n (ss "x") then Ok (VInt 0) else Ok (VBool true).
+Definition nocustom (n : str) (a : list value) : res value := Err (EOther 0).
+Definition cfg_all : config := {| enabled := []; stateless := []; registered := []; costs := []; events := false |}.
+Definition cfg_none : config := {| enabled := [("constant_folding", false); ("reduce_nesting", false); ("fast_evaluation", false); ("reordering", false)]%string;
+                                   stateless := []; registered := []; costs := []; events := false |}.
+Definition guard : tree :=
+  TOp (ss "and") false [TOp (ss "!=") false [TVar (ss "x") 1; TConst (VInt 0)];
+                         TOp (ss ">") false [TOp (ss "/") false [TConst (VInt 10); TVar (ss "x") 1]; TConst (VInt 1)]].
+Example C02_ex_guard :
+  snd (sem fz nocustom (optimize nocustom cfg_none guard)) = Ok (VBool false) /\
+  snd (sem fz nocustom (optimize nocustom cfg_all guard)) = Ok (VBool false) /\
+  wt fz nocustom guard.
+Proof.
+  split; [vm_compute; reflexivity|split; [vm_compute; reflexivity|]].
+  assert (Hleaf : forall name fast cs, op_kind name = None -> Forall (wt fz nocustom) cs -> wt fz nocustom (TOp name fast cs)).
+  { intros name fast cs Hk Hc. apply wt_op. split; [exact Hc|]. intros d Hd. congruence. }
+  assert (L2 : forall a b : tree, wt fz nocustom a -> wt fz nocustom b -> Forall (wt fz nocustom) [a; b])
+      by (intros; constructor; [assumption|constructor; [assumption|constructor]]).
+  unfold guard. apply wt_op. split.
+  - apply L2.
+    + apply Hleaf. vm_compute; reflexivity. apply L2; exact I.
+    + apply Hleaf. vm_compute; reflexivity. apply L2. apply Hleaf. vm_compute; reflexivity. apply L2; exact I. exact I.
+  - intros d _. constructor. right. exists false. vm_compute. reflexivity.
+    constructor. left. vm_compute. reflexivity. constructor.
+Qed.
+
+Print Assumptions C02_configurations_agree.
+Print Assumptions C02_compiled_agree.
